@@ -159,6 +159,21 @@ func genC08(g *Rng, tier string, emit func(Op)) {
 				emit(o)
 			}
 		}
+		// the number of proofs differs from the number of keys while the keyshare labelling has the
+		// length of the proof list (a proof duplicated / dropped in transit)
+		{
+			dup := append(cloneTree(any(s.trees)).([]any), cloneTree(s.trees[0]))
+			for _, lab := range []string{"", "kss"} {
+				kss := make([]string, len(dup))
+				for i := range kss {
+					kss[i] = lab
+				}
+				emit(listOp(s.keys, dup, s.ctx, s.nonce, false, kss, "more-proofs-than-keys-labelled", "reject|decode-error"))
+				if len(s.trees) > 1 {
+					emit(listOp(s.keys, cloneTree(any(s.trees[:len(s.trees)-1])).([]any), s.ctx, s.nonce, false, kss[:len(s.trees)-1], "fewer-proofs-than-keys-labelled", "reject|decode-error"))
+				}
+			}
+		}
 		root := any(T{"l": any(s.trees)}) // holder, so that list elements themselves can be removed
 		paths := allPaths(root)
 		// two cooperating sites: an index that is neither disclosed nor hidden (its disclosed entry
